@@ -107,6 +107,21 @@ theorem key_matches_attr {s : State} (h : Reach s) {t x : String} {i : Nat}
   | none => simp [ha] at hr
   | some j => simp only [ha] at hr; cases hr; exact symName_of_attr (inv_reach h) ha
 
+/-- a module attribute (`periodictable.Fe`, `.iron`, `.D`, `.deuterium`; the namespace filled by
+    `define_elements`) holds an element whose symbol or name is the attribute name, or one of the
+    aliased isotopes D / T -/
+theorem key_matches_module_attr {s : State} (h : Reach s) {x : String} {i : Nat}
+    (hr : (step base s (.modAttr x)).2 = .obj i) : NsGood base s x i := by
+  obtain ⟨ops, rfl⟩ := h
+  have hns := nsOK_run base_Z_distinct base_DT_free ops inv_init (nsOK_init base)
+  simp only [step] at hr
+  cases hg : (run base init ops).ns.get? x with
+  | none => simp [hg] at hr
+  | some j =>
+    simp only [hg, Res.obj.injEq] at hr
+    subst hr
+    exact hns x j hg
+
 /-- `table.name(x)`: an atom of this table whose name is x -/
 theorem key_matches_name {s : State} (h : Reach s) {t x : String} {i : Nat}
     (hr : (step base s (.name t x)).2 = .obj i) :
